@@ -321,8 +321,15 @@ func runCase(c Case, st *ev.Stats) error {
 	names := run.Names
 	machTick := m.MachineTick()
 
-	if err := mem.Sync(); err != nil {
-		return fmt.Errorf("Sync: %v", err)
+	syncErr := make(chan error, 1)
+	go func() { syncErr <- mem.Sync() }()
+	select {
+	case err := <-syncErr:
+		if err != nil {
+			return fmt.Errorf("Sync: %v", err)
+		}
+	case <-time.After(30 * time.Second):
+		return fmt.Errorf("%s: Sync() did not return within 30 s after %d steps (batch %d, paced %v)", c.Cfg.Backend, len(c.History), c.Cfg.Batch, c.Cfg.Pace)
 	}
 
 	trackedNames := mem.Config().TrackedStates
